@@ -778,4 +778,286 @@ theorem sync_healthy {s : Source} (hw : wfTree s.tree = true) (hg : oneGenesis s
   have h3 := fun tip c' req' => (connectBlocks_prefix s d.connected.reverse tip c' req').2.2
   simp only [h3, fetchPrefix_healthy hs _ _ hall, beq_self_eq_true, if_true]
 
+/-! ### start-up synchronisation (init.rs) -/
+
+/-- delivering the whole path above `tip` brings the listener to `top` -/
+theorem apply_connect_path {t : Tree} (hw : wfTree t = true) {top : Hdr} (htop : InTree t top) :
+    ∀ (asc : List Hdr) (tip : Hdr), anc t top = asc.reverse ++ anc t tip →
+      applyNotifs t (anc t tip) (asc.map connNotif) = some (anc t top) := by
+  intro asc
+  induction asc with
+  | nil => intro tip e; simp at e; simp [applyNotifs, anc_inj e]
+  | cons b rest ih =>
+    intro tip e
+    simp only [List.reverse_cons, List.append_assoc, List.singleton_append] at e
+    have hbm : b ∈ anc t top := by rw [e]; exact List.mem_append_right _ List.mem_cons_self
+    have hbt : InTree t b := anc_inTree hw htop hbm
+    have hab : anc t b = b :: anc t tip := anc_suffix hw _ top htop b _ e
+    have e' : anc t top = rest.reverse ++ anc t b := by rw [hab]; exact e
+    simp only [List.map_cons, applyNotifs, apply_connected hw hbt hab]
+    exact ih b e'
+
+theorem resolveLocator_spec {s : Source} (hw : wfTree s.tree = true) {b : Hdr} (height : Nat) :
+    ∀ (cands : List (Nat × Nat)) (c : Cache) (req : Nat) (found : Hdr) (c1 : Cache) (r : Nat),
+      CacheOk s.tree c → (∀ d h x, (d, h) ∈ cands → hdrOf s.tree h = some x → x ∈ anc s.tree b) →
+      resolveLocator s height cands c req = .ok ((found, c1), r) →
+      found ∈ anc s.tree b ∧ InTree s.tree found ∧ CacheOk s.tree c1 := by
+  intro cands
+  induction cands with
+  | nil => intro c req found c1 r _ _ e; simp [resolveLocator] at e
+  | cons dh rest ih =>
+    intro c req found c1 r hc hanc e
+    rcases dh with ⟨d, h⟩
+    unfold resolveLocator at e
+    split at e
+    · rename_i x hx
+      cases e
+      obtain ⟨hm, hhash⟩ := cacheLookUp_some hx
+      have hxt : InTree s.tree found := hc found hm
+      have : hdrOf s.tree h = some found := by unfold InTree at hxt; rw [hhash] at hxt; exact hxt
+      exact ⟨hanc d h found List.mem_cons_self this, hxt, hc⟩
+    · split at e
+      · cases e
+      · split at e
+        · rename_i x hx
+          cases e
+          have := getHeader_ok hx
+          have hxt := inTree_of_hdrOf hw this
+          exact ⟨hanc d h found List.mem_cons_self this, hxt, cacheOk_insertDuringDiff hc hxt⟩
+        · exact ih c (req + 1) found c1 r hc (fun d' h' x hm => hanc d' h' x (List.mem_cons_of_mem _ hm)) e
+
+/-- what the first loop of synchronize_listeners establishes for one listener -/
+def ListenerOk (t : Tree) (best : Hdr) (mostLen : Nat) (bl : Hdr × Locator) (p : Option Hdr × List Notif) : Prop :=
+  ∃ common dconn, p.1 = some common ∧ InTree t common ∧ anc t best = dconn ++ anc t common ∧
+    dconn.length ≤ mostLen ∧ applyNotifs t (anc t bl.1) p.2 = some (anc t common)
+
+theorem ListenerOk.mono {t : Tree} {best : Hdr} {m m' : Nat} (h : m ≤ m') {bl : Hdr × Locator}
+    {p : Option Hdr × List Notif} (hl : ListenerOk t best m bl p) : ListenerOk t best m' bl p := by
+  obtain ⟨common, dconn, h1, h2, h3, h4, h5⟩ := hl
+  exact ⟨common, dconn, h1, h2, h3, by omega, h5⟩
+
+theorem phase1_most_len (s : Source) (best : Hdr) : ∀ (ls : List Locator) (c : Cache) (req : Nat) (most : List Hdr),
+    most.length ≤ (phase1 s best ls c req most).most.length := by
+  intro ls
+  induction ls with
+  | nil => intro c req most; simp [phase1]
+  | cons l ls ih =>
+    intro c req most
+    unfold phase1
+    split
+    · simp
+    · rename_i d c1 req1 _
+      simp only
+      by_cases hlt : most.length < d.connected.length
+      · have := ih (cacheBlocksDisconnected c1 true d.common) req1 d.connected
+        simp only [hlt, if_true]; omega
+      · have := ih (cacheBlocksDisconnected c1 true d.common) req1 most
+        simp only [hlt, if_false]; exact this
+
+theorem phase1_spec {s : Source} (hw : wfTree s.tree = true) {best : Hdr} (hb : InTree s.tree best) :
+    ∀ (pairs : List (Hdr × Locator)) (c : Cache) (req : Nat) (most : List Hdr),
+      (∀ p ∈ pairs, LocatorOk s.tree p.2 p.1) → CacheOk s.tree c →
+      (∃ cm, anc s.tree best = most ++ anc s.tree cm) →
+      (phase1 s best (pairs.map (·.2)) c req most).ok = true →
+      Forall2 (ListenerOk s.tree best (phase1 s best (pairs.map (·.2)) c req most).most.length) pairs
+        (phase1 s best (pairs.map (·.2)) c req most).per ∧
+      CacheOk s.tree (phase1 s best (pairs.map (·.2)) c req most).cache ∧
+      (∃ cm, anc s.tree best = (phase1 s best (pairs.map (·.2)) c req most).most ++ anc s.tree cm) := by
+  intro pairs
+  induction pairs with
+  | nil => intro c req most _ hc hm _; simp only [List.map_nil, phase1]; exact ⟨Forall2.nil, hc, hm⟩
+  | cons bl pairs ih =>
+    intro c req most hl hc hm hok
+    rcases bl with ⟨b, l⟩
+    obtain ⟨hbt, hlh, hcands⟩ := hl (b, l) List.mem_cons_self
+    simp only [List.map_cons] at hok ⊢
+    unfold phase1 at hok ⊢
+    split at hok
+    · simp at hok
+    · rename_i d c1 req1 hfd
+      simp only at hok ⊢
+      -- the difference for this listener
+      unfold findDiffFromBestBlock at hfd
+      split at hfd
+      · cases hfd
+      · rename_i found c1' req0 hres
+        split at hfd
+        · cases hfd
+        · rename_i d' req2 hdiff
+          cases hfd
+          obtain ⟨hfa, hft, hc1⟩ := resolveLocator_spec hw l.height l.candidates c req found c1 req0 hc hcands hres
+          have hL := findDiff_spec hw hc1 hb hft hdiff
+          have hct : InTree s.tree d.common := anc_inTree hw hb hL.onCur
+          have hcb : d.common ∈ anc s.tree b := anc_trans hw hbt hfa hL.onPrev
+          have hmost' : ∃ cm, anc s.tree best = (if most.length < d.connected.length then d.connected else most) ++ anc s.tree cm := by
+            split
+            · exact ⟨d.common, hL.path⟩
+            · exact hm
+          obtain ⟨i1, i2, i3⟩ := ih (cacheBlocksDisconnected c1 true d.common) req1
+            (if most.length < d.connected.length then d.connected else most)
+            (fun p hp => hl p (List.mem_cons_of_mem _ hp)) (cacheOk_blocksDisconnected hc1 _ _) hmost' hok
+          have hlen := phase1_most_len s best (pairs.map (·.2)) (cacheBlocksDisconnected c1 true d.common) req1
+            (if most.length < d.connected.length then d.connected else most)
+          refine ⟨Forall2.cons ?_ i1, i2, i3⟩
+          refine ⟨d.common, d.connected, rfl, hct, hL.path, ?_, ?_⟩
+          · by_cases hlt : most.length < d.connected.length
+            · simp only [hlt, if_true] at hlen ⊢; exact hlen
+            · simp only [hlt, if_false] at hlen ⊢; omega
+          · by_cases hh : d.common.hash = l.hash
+            · have : d.common = b := inTree_hash_inj hct hbt (by rw [hh, hlh])
+              subst this
+              simp [hh, applyNotifs]
+            · have hne : d.common ≠ b := by intro e; rw [e] at hh; exact hh hlh.symm
+              have : (d.common.hash != l.hash) = true := by simp [bne, hh]
+              simp only [this, if_true, applyNotifs, apply_disconnected hw hbt hcb hne]
+
+theorem fetchAll_spec (s : Source) : ∀ (bs : List Hdr) (req : Nat), (fetchAll s bs req).2 = req + bs.length := by
+  intro bs
+  induction bs with
+  | nil => intro req; simp [fetchAll]
+  | cons b rest ih => intro req; simp only [fetchAll, ih, List.length_cons]; omega
+
+theorem foldl_blockConnected_ok {t : Tree} : ∀ (bs : List Hdr) (c : Cache), CacheOk t c → (∀ b ∈ bs, InTree t b) →
+    CacheOk t (bs.foldl cacheBlockConnected c) := by
+  intro bs
+  induction bs with
+  | nil => intro c hc _; exact hc
+  | cons b rest ih =>
+    intro c hc h
+    simp only [List.foldl_cons]
+    exact ih (cacheBlockConnected c b) (cacheOk_blockConnected hc (h b List.mem_cons_self))
+      (fun x hx => h x (List.mem_cons_of_mem _ hx))
+
+/-- the batched second loop delivers everything when it succeeds -/
+theorem phase2_spec (s : Source) {t : Tree} (k : Nat) (hk : 0 < k) : ∀ (n : Nat) (asc : List Hdr) (c : Cache) (req : Nat),
+    asc.length ≤ n → CacheOk t c → (∀ b ∈ asc, InTree t b) →
+    ((phase2 s k n asc c req).1 = true → (phase2 s k n asc c req).2.2.2 = asc) ∧
+    CacheOk t (phase2 s k n asc c req).2.1 := by
+  intro n
+  induction n with
+  | zero =>
+    intro asc c req hlen hc _
+    have : asc = [] := List.eq_nil_of_length_eq_zero (by omega)
+    subst this; simp [phase2, hc]
+  | succ n ih =>
+    intro asc c req hlen hc hall
+    unfold phase2
+    by_cases he : asc.isEmpty = true
+    · have : asc = [] := by simpa using he
+      subst this; simp [hc]
+    · simp only [he, Bool.false_eq_true, if_false]
+      cases hf : (fetchAll s (asc.take k) req).1 with
+      | false => simp [hc]
+      | true =>
+        have hne : asc ≠ [] := by simpa using he
+        have hpos : 0 < asc.length := List.length_pos_iff.mpr hne
+        have hdl : (asc.drop k).length ≤ n := by simp only [List.length_drop]; omega
+        obtain ⟨i1, i2⟩ := ih (asc.drop k) ((asc.take k).foldl cacheBlockConnected c) (fetchAll s (asc.take k) req).2 hdl
+          (foldl_blockConnected_ok _ _ hc (fun b hb => hall b (List.mem_of_mem_take hb)))
+          (fun b hb => hall b (List.mem_of_mem_drop hb))
+        simp only [Bool.not_true, Bool.false_eq_true, if_false]
+        refine ⟨fun hok => ?_, i2⟩
+        rw [i1 hok, List.take_append_drop]
+
+theorem forall2_map_right {α β γ : Type} {R : α → β → Prop} {R' : α → γ → Prop} {f : β → γ}
+    (h : ∀ a b, R a b → R' a (f b)) : ∀ {l1 : List α} {l2 : List β}, Forall2 R l1 l2 →
+    Forall2 R' l1 (l2.map f) := by
+  intro l1 l2 hf
+  induction hf with
+  | nil => exact Forall2.nil
+  | cons hab _ ih => exact Forall2.cons (h _ _ hab) ih
+
+/-- the blocks of the longest connected list that lie above a listener's common ancestor are exactly
+    that listener's own connected list -/
+theorem connectedFor_most {t : Tree} (hw : wfTree t = true) {best common cm : Hdr} (hb : InTree t best)
+    {dconn most : List Hdr} (h1 : anc t best = dconn ++ anc t common) (h2 : anc t best = most ++ anc t cm)
+    (hct : InTree t common) (hlen : dconn.length ≤ most.length) :
+    connectedFor common.height most.reverse = dconn.reverse.map connNotif := by
+  -- most = dconn ++ extra, extra ++ anc cm = anc common
+  have hsplit : ∃ extra, most = dconn ++ extra ∧ extra ++ anc t cm = anc t common := by
+    have e : dconn ++ anc t common = most ++ anc t cm := by rw [← h1, h2]
+    rcases List.append_eq_append_iff.mp e with ⟨a', ha, hb'⟩ | ⟨c', hc', hd⟩
+    · exact ⟨a', ha, hb'.symm⟩
+    · have : c' = [] := by
+        have := congrArg List.length hc'
+        simp at this
+        exact List.eq_nil_of_length_eq_zero (by omega)
+      subst this
+      simp at hc' hd
+      exact ⟨[], by simp [hc'], by simp [hd]⟩
+  obtain ⟨extra, hm, hx⟩ := hsplit
+  have habove := above_of_split hw hb h1
+  have hbelow : ∀ y ∈ extra, y.height ≤ common.height := by
+    intro y hy
+    apply anc_height_le hw hct
+    rw [← hx]; exact List.mem_append_left _ hy
+  subst hm
+  unfold connectedFor
+  simp only [List.reverse_append, List.filter_append]
+  have f1 : extra.reverse.filter (fun b => decide (common.height < b.height)) = [] := by
+    apply List.filter_eq_nil_iff.mpr
+    intro y hy
+    have := hbelow y (List.mem_reverse.mp hy)
+    simp; omega
+  have f2 : dconn.reverse.filter (fun b => decide (common.height < b.height)) = dconn.reverse := by
+    apply List.filter_eq_self.mpr
+    intro y hy
+    have := habove y (List.mem_reverse.mp hy)
+    simp; omega
+  rw [f1, f2]; simp [connNotif]
+
+/-! ### resuming after an interrupted poll -/
+
+theorem lastOr_concat (x : Hdr) : ∀ (l : List Hdr) (z : Hdr), lastOr x (l ++ [z]) = z := by
+  intro l
+  induction l generalizing x with
+  | nil => intro z; rfl
+  | cons y l ih => intro z; simp only [List.cons_append, lastOr]; exact ih y z
+
+/-- cumulative work strictly increases along a (non-empty) path -/
+theorem anc_work_lt {t : Tree} (hw : wfTree t = true) {x : Hdr} : ∀ (l : List Hdr) (b : Hdr), InTree t b →
+    anc t b = l ++ anc t x → l ≠ [] → x.work < b.work := by
+  intro l
+  induction l with
+  | nil => intro b _ _ h; exact absurd rfl h
+  | cons y l ih =>
+    intro b hb e _
+    by_cases h0 : b.height = 0
+    · rw [anc_zero h0] at e
+      obtain ⟨r, hr⟩ := anc_head t x
+      rw [hr] at e; simp at e
+    · obtain ⟨p, _, _, hwk, hp, ha⟩ := anc_succ hw hb h0
+      rw [ha] at e
+      simp only [List.cons_append] at e
+      have e' := (List.cons.inj e).2
+      cases l with
+      | nil => simp at e'; rw [anc_inj e'] at hwk; exact hwk
+      | cons z l' => have := ih p hp e' (by simp); omega
+
+/-- the chain of the block an interrupted connect stopped at -/
+theorem anc_lastOr {t : Tree} (hw : wfTree t = true) {top common : Hdr} (htop : InTree t top)
+    (pre suf : List Hdr) (e : anc t top = (pre ++ suf).reverse ++ anc t common) :
+    anc t top = suf.reverse ++ anc t (lastOr common pre) ∧
+    anc t (lastOr common pre) = pre.reverse ++ anc t common := by
+  rcases List.eq_nil_or_concat pre with rfl | ⟨pre', z, rfl⟩
+  · simp only [List.nil_append, lastOr, List.reverse_nil] at e ⊢
+    exact ⟨e, trivial⟩
+  · simp only [List.concat_eq_append] at e ⊢
+    rw [lastOr_concat]
+    simp only [List.reverse_append, List.reverse_cons, List.reverse_nil, List.nil_append,
+      List.singleton_append, List.append_assoc, List.cons_append] at e ⊢
+    have hz : anc t z = z :: (pre'.reverse ++ anc t common) := anc_suffix hw _ top htop z _ e
+    exact ⟨by rw [hz]; exact e, hz⟩
+
+theorem fetchPrefix_le (s : Source) : ∀ (bs : List Hdr) (req : Nat), fetchPrefix s req bs ≤ bs.length := by
+  intro bs
+  induction bs with
+  | nil => intro _; simp [fetchPrefix]
+  | cons b rest ih =>
+    intro req
+    unfold fetchPrefix
+    split
+    · have := ih (req + 1); simp only [List.length_cons]; omega
+    · omega
+
 end Ldk.ChainSync
